@@ -362,6 +362,15 @@ func init() {
 		"strconv.eiselLemire64": atofCut,
 		"strconv.eiselLemire32": atofCut,
 
+		// ---- time: the clock is not part of any claim; a fixed instant
+		"time.Now": func(fr *frame, a []value) value {
+			return fr.in.zero(fr.fn.Signature.Results().At(0).Type())
+		},
+		"time.Since": func(fr *frame, a []value) value { return fr.in.int64v(0) },
+		"time.Until": func(fr *frame, a []value) value { return fr.in.int64v(0) },
+		"os.Getenv":  func(fr *frame, a []value) value { return str{} },
+		"os.LookupEnv": func(fr *frame, a []value) value { return tuple{str{}, fr.in.tb.False} },
+
 		// ---- os: a few harmless ones
 		"os.Getpid":          func(fr *frame, a []value) value { return fr.in.int64v(4242) },
 		"os.runtime_args":    func(fr *frame, a []value) value { return []value{} },
